@@ -322,6 +322,16 @@ def core_specs():
     add('static-box-zero-ub', dv=[dict(shape=[2])], rv=[[2]], sets=[box([-1, -2], 0)], bounds=bx,
         rows=[dict(e=[['x', 0, [1, 2]], ['xz', 0, 0, [[1, 1], [0, -1]]]], sense='le', rhs=5)],
         obj=dict(kind='minmax', set=0, e=[['x', 0, [-1, -1]], ['z', 0, [1, 1]]]))
+    # 3a. vector-valued robust rows (several rows dualised in one call) over a box whose bounds are zero for some
+    #     components only; every row binds at the optimum of min sum(x)
+    add('vector-rows-mixed-zero', dv=[dict(shape=[3])], rv=[[3]], sets=[box([0, -1, -0.5], [1, 1, 1])],
+        bounds=[dict(x=0, lo=-8, hi=8)],
+        rows=[dict(e=[['vx', 0, 1.0], ['Bz', 0, [[-1, 0.5, 0], [0.5, -1, 1], [0, 2, -1]]]], sense='ge', rhs=[0.5, 1.0, -0.5], set=0)],
+        obj=dict(kind='min', e=[['x', 0, [1, 1, 1]]]))
+    add('vector-rows-mixed-zero-ub', dv=[dict(shape=[2])], rv=[[3]], sets=[box([-1, -2, -0.5], [0, 1, 0])],
+        bounds=[dict(x=0, lo=-8, hi=8)],
+        rows=[dict(e=[['vx', 0, 1.0], ['Bz', 0, [[1, -0.5, 2], [-1, 1, 0.5]]]], sense='le', rhs=[2.0, 1.0], set=0)],
+        obj=dict(kind='max', e=[['x', 0, [1, 2]]]))
     # 3b. strictly negative / strictly positive boxes (bound objects with ub < 0 and lb > 0)
     add('static-box-negative', dv=[dict(shape=[2])], rv=[[2]], sets=[box([-3, 0.5], [-1, 2])], bounds=bx,
         rows=[dict(e=[['x', 0, [1, 2]], ['xz', 0, 0, [[1, 1], [0, -1]]]], sense='le', rhs=9),
@@ -505,8 +515,16 @@ def random_spec(rnd, i):
         if use_ldr:
             e.append(['y', 0, [gn() for _ in range(ldr[0]['shape'][0])]])
         sense = rnd.choice(['le', 'le', 'ge'])
-        rhs = 12 if sense == 'le' else -12
+        tight = rnd.choice([12, 12, 4, 2])
+        rhs = tight if sense == 'le' else -tight
         rows.append(dict(e=e, sense=sense, rhs=rhs))
+    if not use_ldr and rnd.random() < 0.35:
+        # a vector-valued robust row: nx rows dualised in one call
+        B = [[coef() if rnd.random() < 0.7 else 0 for _ in range(nz)] for _ in range(nx)]
+        sense = rnd.choice(['le', 'ge'])
+        tight = rnd.choice([6, 3, 1.5])
+        rows.append(dict(e=[['vx', 0, rnd.choice([1.0, 2.0])], ['Bz', 0, B]], sense=sense,
+                         rhs=[tight if sense == 'le' else -tight] * nx))
     if use_ldr:
         ny = ldr[0]['shape'][0]
         rows.append(dict(e=[['vy', 0]], sense='le', rhs=[4] * ny))
